@@ -7,15 +7,17 @@ SPEC = dict(
                "very long) start from a missing, empty or populated notebook in an isolated home. After every save that reports success the "
                "notebook is re-loaded through LoadDatabase and must equal the reference model (replace by command string, else append) entry by "
                "entry and in order; the merged database must be main ++ notebook; and a search (built binary) for a unique word of the saved "
-               "description must return the entry. A crash of the save command refutes 'reports success' outright.",
+               "description must return the entry. A crash of the save command refutes 'reports success' outright. A second engine saves (as uid 65534 via setpriv) while the existing "
+               "notebook cannot be read or its directory cannot be written: earlier entries must survive whatever save reports.",
     level_note="Keywords/platforms are kept free of commas/quotes so the flag's CSV split is unambiguous; NUL cannot be passed through execve.",
-    engines=[dict(name="notebook", shards=T(16, 16), timeout=T(1200, 7200), needs_wtf=True)],
+    engines=[dict(name="notebook", shards=T(16, 16), timeout=T(1200, 7200), needs_wtf=True),
+             dict(name="notebook-faults", shards=T(8, 16), timeout=T(1200, 7200), needs_wtf=True)],
     rule="case = one save step inside a history; non-trivial = a save that reported success and whose notebook was re-loaded and compared; distinct by "
          "(history, step, arguments).",
     floors=T({"save-succeeded": 800, "save-replaced-existing": 60, "merge-checked": 200, "search-after-save": 200, "start-missing": 10, "start-populated": 10,
-              "distinct_nontrivial": 800},
+              "fault-unreadable-0200": 15, "fault-save-reported-failure": 20, "fault-save-reported-success": 15, "distinct_nontrivial": 800},
              {"save-succeeded": 15000, "save-replaced-existing": 1000, "merge-checked": 4000, "search-after-save": 4000, "start-missing": 200, "start-populated": 200,
-              "distinct_nontrivial": 15000}),
+              "fault-unreadable-0200": 150, "fault-save-reported-failure": 200, "fault-save-reported-success": 150, "distinct_nontrivial": 15000}),
     assumptions=["save-pipeline: documented auto-keywords (pipeline, workflow, search, filter, text, processing, sort, order, find) may precede the given keywords; "
                  "without --description the generated description is accepted"],
 )
